@@ -68,13 +68,19 @@ class C17(FsProp):
                 if tier != "thorough" and (k + v) % 2:
                     entries = entries[:1]
                 for e in entries:
+                    # names at the limit of what the filesystem accepts: 255 bytes (no room for any suffix: the edit
+                    # may fail, but must not hurt the file) and 251 bytes (exactly room for four more)
+                    names = ("m.torrent", "fetched.tmp", "noext", "x.y.torrent", "m.torrent.tmp", "L" * 247 + ".torrent",
+                             "K" * 243 + ".torrent")
+                    mname = names[k % 7]
                     out.append({"version": v, "P": B, "tree": mk_tree("D2", (B + 1, 3 * B)), "req": r, "entry": e,
-                                "present": ["announce", "comment"] if k % 2 else [], "clauses": cl,
+                                "present": ["announce", "comment"] if k % 2 else [],
+                                "clauses": [c for c in cl if c != "C17.works" or len(mname) <= 251],
                                 # every third request: the metafile lives on another filesystem than the
                                 # system temp directory (a rename from there is impossible)
                                 "other_fs": k % 3 == 0,
                                 # the metafile need not be called *.torrent
-                                "meta_name": ("m.torrent", "fetched.tmp", "noext", "x.y.torrent", "m.torrent.tmp")[k % 5],
+                                "meta_name": mname,
                                 # the metafile path is a symbolic link to a file kept elsewhere
                                 "meta_symlink": k % 4 == 1})
         return out
